@@ -3,7 +3,7 @@
 import json, sys
 nn, ids = sys.argv[1], sys.argv[2:]
 props = {json.loads(l)["id"]: json.loads(l) for l in open('/verif/properties.jsonl')}
-head = open('/tmp/mut_prompt_04.txt').read().split("Properties:")[0].replace("mut04", f"mut{nn}")
+head = open('/verif/tools/mut_prompt_head.txt').read().split("Properties:")[0].replace("mut04", f"mut{nn}")
 out = head + "Properties:\n"
 for i in ids:
     p = props[i]
